@@ -146,13 +146,19 @@ def jsonArray (l : List Bytes) : Bytes := 91 :: joinComma l ++ [93]
 
 def str (s : String) : Bytes := s.toUTF8.toList
 
+/-- the literal parts of a v1marshaler node, as bytes: `{"Key":`  `,"Value":`  `,"Link":`  `null` -/
+def litKey : Bytes := [123, 34, 75, 101, 121, 34, 58]
+def litValue : Bytes := [44, 34, 86, 97, 108, 117, 101, 34, 58]
+def litLink : Bytes := [44, 34, 76, 105, 110, 107, 34, 58]
+def litNull : Bytes := [110, 117, 108, 108]
+
 /-- `json.Marshal(node.Node)` for format "v1marshaler": `Link` omitted when trimmed to nil,
     nil links inside a present list are `null` -/
 def encJson (n : NodeB) : Bytes :=
-  str "{\"Key\":" ++ jsonArray n.keys ++ str ",\"Value\":" ++ jsonArray n.vals ++
+  litKey ++ jsonArray n.keys ++ litValue ++ jsonArray n.vals ++
     (if n.links.all Option.isNone then []
-     else str ",\"Link\":" ++ jsonArray (n.links.map fun l =>
-        match l with | none => str "null" | some nm => quote nm)) ++ str "}"
+     else litLink ++ jsonArray (n.links.map fun l =>
+        match l with | none => litNull | some nm => quote nm)) ++ [125]
 
 end Codec
 
